@@ -34,7 +34,12 @@ def streams(tier, rng, P, only=None, cases=None):
             else:
                 # (also ticks at and beyond the four-byte limit of a delta time: the file still carries the whole value)
                 nn = rng.randint(0, 5000) if rng.random() < 0.8 else rng.choice([16383, 16384, 2097151, 2097152, 268435455, 268435456, 268435457, 300000000, 2147483653, 4294967301])
-                parts.append("TIME(%d)" % nn); args = str(nn)
+                if rng.random() < 0.25:
+                    # the argument may be an expression over the system values (`TIMEBASE` is the time base, not a position)
+                    k = rng.randint(0, 9); nn = tb * k
+                    parts.append(rng.choice(["TIME(TIMEBASE*%d)", "TIME(%d*TIMEBASE)", "Time(TIMEBASE * %d)"]) % k); args = str(nn)
+                else:
+                    parts.append("TIME(%d)" % nn); args = str(nn)
             parts.append("n60")
             src = " ".join(parts)
             cs.append(dict(req="run " + hx(src), src=src, show=src, mreq="timespec %d %d %d %d %s" % (tb, num, den, sh, args), key="t%d" % i))
